@@ -85,6 +85,27 @@ fn seg_text_range(s: &str, seg: &Seg) -> Option<(usize, usize)> {
 pub fn apply(src: &str, kind: &FaultKind, other: Option<&str>) -> Option<String> {
     match kind {
         FaultKind::Duplicate => Some(src.to_string()),
+        FaultKind::RotateMsgTailToFooter { p } => {
+            let mut t = Tok::parse(src)?;
+            let proto = t.proto()?;
+            if proto.is_local() || t.footer.is_some() || *p < 9 {
+                return None;
+            }
+            let sl = proto.tail_len();
+            if t.payload.len() < sl + *p {
+                return None;
+            }
+            let cut = t.payload.len() - sl - *p;
+            let tail: Vec<u8> = t.payload[cut..cut + *p].to_vec();
+            let sig: Vec<u8> = t.payload[t.payload.len() - sl..].to_vec();
+            let mut np = t.payload[..cut].to_vec();
+            np.extend_from_slice(&sig);
+            t.payload = np;
+            let mut footer = tail[8..].to_vec();
+            footer.extend_from_slice(&tail[..8]);
+            t.footer = Some(footer);
+            Some(t.render())
+        }
         FaultKind::AlphabetSwap { seg } => {
             let (a, b) = seg_text_range(src, seg)?;
             let t = &src[a..b];
